@@ -8,6 +8,7 @@ in the quick tier. `sanitizers`: the same engines re-run on a reduced budget und
 PROPS = {}
 
 PROPS["C19"] = {
+    "ready": False,  # not registered in MANIFEST.json until the known findings are triaged
     "title": "Model values: equality, ordering and hashing are mutually coherent",
     "level": "exploration",
     "design_ref": "DESIGN.md §3 C19",
